@@ -300,6 +300,7 @@ fn main() {
             let nsteps = if i == 0 { 1 } else { rng.range(1, 3) as usize };
             let mut inputs: Vec<Commit> = vec![];
             let mut outs: Vec<W> = vec![];
+            let mut cached_now: Vec<bool> = vec![]; // Store's cache right after each write
             let mut ok_ids: Vec<CommitId> = vec![];
             for k in 0..nsteps {
                 let input = if i == 0 {
@@ -343,8 +344,13 @@ fn main() {
                         Some(Err(_)) => W::Err,
                     }
                 };
-                if let W::Ok(id, _) = &out {
+                if let W::Ok(id, returned) = &out {
                     ok_ids.push(id.clone());
+                    cached_now.push(
+                        store.get_commit(id).map(|c| c.store_commit().as_ref() == returned).unwrap_or(false),
+                    );
+                } else {
+                    cached_now.push(true);
                 }
                 let panicked = matches!(out, W::Panic);
                 inputs.push(input);
@@ -360,13 +366,13 @@ fn main() {
             let mut all_equal = true;
             let mut any_ok = false;
             let mut ids_are_hashes = true;
-            for (input, out) in inputs.iter().zip(outs.iter()) {
+            for ((input, out), cached_at_write) in inputs.iter().zip(outs.iter()).zip(cached_now.iter()) {
                 let (wres, rres, cached, hashed) = match out {
                     W::Panic => ("IPanic".to_string(), "RNone".to_string(), true, vec![]),
                     W::Err => ("IErr".to_string(), "RNone".to_string(), true, vec![]),
                     W::Ok(id, returned) => {
                         any_ok = true;
-                        let cached = store.get_commit(id).map(|c| c.store_commit().as_ref() == returned).unwrap_or(false);
+                        let cached = *cached_at_write;
                         let read = jjv::catch(|| fresh_store.backend().read_commit(id).block_on());
                         let r = match &read {
                             None => "RPanic".to_string(),
